@@ -244,7 +244,7 @@ func (c *SCIONClient) measureClockOffsetSCION(ctx context.Context, mtrcs *scionC
 	scionLayer.DstIA = remoteAddr.IA
 	dstAddrIP, ok := netip.AddrFromSlice(remoteAddr.Host.IP)
 	if !ok {
-		panic(errUnexpectedAddrType)
+		return time.Time{}, 0, errUnexpectedAddrType
 	}
 	err = scionLayer.SetDstAddr(addr.HostIP(dstAddrIP.Unmap()))
 	if err != nil {
